@@ -23,6 +23,17 @@ type query struct {
 
 func (q query) String() string { return strings.Join(q.Args(), " ") }
 
+// cliOK tells whether the query can be typed on the command line: `--tag` takes a comma-separated list in which `\,`
+// stands for a comma, so a value that contains a backslash directly in front of a comma cannot be expressed.
+func (q query) cliOK() bool {
+	for _, t := range q.TagArgs {
+		if strings.Contains(t, "\\,") {
+			return false
+		}
+	}
+	return true
+}
+
 // Args renders the command-line flags.
 func (q query) Args() []string {
 	var a []string
@@ -43,7 +54,7 @@ func (q query) Args() []string {
 		a = append(a, "--"+q.Shortcut)
 	}
 	for _, t := range q.TagArgs {
-		a = append(a, "--tag", t)
+		a = append(a, "--tag", strings.ReplaceAll(t, ",", "\\,")) // the flag takes a comma-separated list: a comma inside a value is typed as \,
 	}
 	if q.EntryType != "" {
 		a = append(a, "--entry-type", q.EntryType)
